@@ -43,6 +43,11 @@ CLASSIFIED = {
     "_fields_set_classes": "with_fields_set marks: not in the statement's operation list",
     "COLLECTION_TYPES": "constant", "MAPPING_TYPES": "constant", "PRIMITIVE_TYPES": "constant",
 }
+# raw functools memoisation that is NOT stale-prone, each with the reason
+ALLOWED_RAW_MEMO = {
+    (os.path.join("apischema", "deserialization", "__init__.py"), "_method"): "per-instance memo of a DeserializationMethodFactory: the factories are created by the @cache'd visitors and dropped with them",
+    (os.path.join("apischema", "conversions", "conversions.py"), "__post_init__"): "per-instance lru_cache(1) of a LazyConversion's own getter: holds what the user's thunk returned, no registry is read",
+}
 MUTATING_METHODS = {"append", "extend", "insert", "remove", "pop", "clear", "update", "setdefault", "add", "discard", "popitem", "sort", "reverse"}
 MUTABLE_CALLS = {"dict", "list", "set", "defaultdict", "WeakKeyDictionary", "OrderedDict", "deque", "CacheAwareDict"}
 
@@ -163,5 +168,48 @@ def scan(report, root: str):
             for line, r in inplace:
                 if not has_reset and guarded.get(r, 0) < line:
                     log.fail(f"inner-mutation:{rel}:{fn.name}:{r}", f"{rel}:{line}: `{fn.name}` mutates a value of registry `{r}` in place and never stores through the wrapper afterwards: the caches are not reset", {"file": rel, "function": fn.name, "line": line, "registry": r}, functions_involved=[fn.name])
+    # memoisation: every cache of the package must be registered with the reset protocol
+    # (apischema.cache.cache), or live inside something that is (a closure of a @cache'd factory, a
+    # per-instance cache of an object itself created by a @cache'd factory)
+    for path, tree in sorted(trees.items()):
+        rel = os.path.relpath(path, root)
+        if rel == os.path.join("apischema", "cache.py"):
+            continue
+
+        def is_raw_memo(dec: ast.expr) -> bool:
+            d = dec.func if isinstance(dec, ast.Call) else dec
+            name = d.id if isinstance(d, ast.Name) else d.attr if isinstance(d, ast.Attribute) else ""
+            if name == "lru_cache":
+                return True
+            return name == "cache" and isinstance(d, ast.Attribute) and isinstance(d.value, ast.Name) and d.value.id == "functools"
+
+        def is_reset_cache(dec: ast.expr) -> bool:
+            return isinstance(dec, ast.Name) and dec.id == "cache"
+
+        def visit(node, under_reset: bool, owner: str):
+            for child in ast.iter_child_nodes(node):
+                if isinstance(child, (ast.FunctionDef, ast.AsyncFunctionDef)):
+                    raw = [d for d in child.decorator_list if is_raw_memo(d)]
+                    reg = any(is_reset_cache(d) for d in child.decorator_list)
+                    if raw or reg:
+                        where = f"{rel}:{child.lineno} {owner + '.' if owner else ''}{child.name}"
+                        ok = reg or under_reset or (rel, child.name) in ALLOWED_RAW_MEMO
+                        log.case(("memo", rel, child.lineno), True, sample={"memoised": where, "registered": reg, "inside_registered_factory": under_reset})
+                        if not ok:
+                            log.fail(f"unregistered-memo:{rel}:{child.name}", f"{where}: memoised with functools.lru_cache / cache, which apischema.cache.reset() does not know: results computed before a settings change or a registration stay in use", {"file": rel, "function": child.name, "line": child.lineno}, functions_involved=[child.name])
+                    visit(child, under_reset or reg, child.name)
+                elif isinstance(child, ast.ClassDef):
+                    visit(child, under_reset, child.name)
+                else:
+                    # lru_cache(...)(f) applied by a call (module level or inside functions)
+                    if isinstance(child, ast.Call) and isinstance(child.func, ast.Call) and is_raw_memo(child.func):
+                        where = f"{rel}:{child.lineno}"
+                        ok = under_reset or (rel, owner) in ALLOWED_RAW_MEMO
+                        log.case(("memo-call", rel, child.lineno), True, sample={"memoised_by_call": where, "inside": owner})
+                        if not ok:
+                            log.fail(f"unregistered-memo:{rel}:{owner or 'module'}:call", f"{where}: a function is wrapped by functools.lru_cache(...) outside the reset protocol", {"file": rel, "line": child.lineno, "inside": owner}, functions_involved=[owner])
+                    visit(child, under_reset, owner)
+
+        visit(tree, False, "")
     log.exhaustive()
     return log
